@@ -33,12 +33,16 @@ class Recorder:
 
     def __init__(self, app):
         self.log: list[tuple[str, str, str | None, int]] = []
+        self.wrong: list[tuple] = []        # accepted requests answered with a record of another status
         o = app.orchestrator
         orig_t, orig_r = o._atomic_status_transition, o._register_new_invocations
 
         def trans(invocation_id, status, runner_id=None):
             rec = orig_t(invocation_id, status, runner_id)
-            self.log.append((invocation_id, rec.status.value, runner_id, ts_us(rec.timestamp)))
+            # the change that was REQUESTED and accepted (not whatever record comes back), at the time the store gave it
+            self.log.append((invocation_id, status.value, runner_id, ts_us(rec.timestamp)))
+            if rec.status != status:
+                self.wrong.append((invocation_id, status.value, rec.status.value, runner_id))
             return rec
 
         def reg(invocations, runner_id=None):
@@ -55,6 +59,9 @@ def judge(ctx: Ctx, kind: str, app, recorder: Recorder, doc_edges: set, where: s
     per: dict[str, list] = {}
     for i, st, r, t in recorder.log:
         per.setdefault(i, []).append((st, r, t))
+    for i, want, got_st, r in recorder.wrong:
+        ctx.report(f"transition-returns-foreign-record[{kind}]", f"[{kind}] {where}: the accepted change to {want} requested by {r} was answered with a record in status {got_st} "
+                                                                  f"(the history entry is written from that record)", {"backend": kind, "scenario": where, **(extra or {})})
     for i, changes in per.items():
         hist = app.state_backend.get_history(i)
         got = [(h.status_record.status.value, h.runner_context_id, ts_us(h.status_record.timestamp)) for h in hist]
@@ -274,6 +281,113 @@ def overlapping_writers(ctx: Ctx, kind: str, doc_edges: set) -> None:
     ctx.notes[f"overlapping_writer_schedules_{kind}"] = total
 
 
+def adjacent_transitions(ctx: Ctx, kind: str, doc_edges: set) -> None:
+    """two accepted changes of ONE invocation by different runners back to back: the second request is issued (and retried)
+    while the first is anywhere between its validation, its write and its return - the first thread paused after each of its
+    scheduling steps, the second run to completion.  Each accepted change must get exactly its own history entry."""
+    from pynenc.invocation.status import InvocationStatus as S
+    from pynenc.orchestrator.mem_orchestrator import MemOrchestrator
+    from harness.props.c02 import SQL_PATCH
+    from harness.sched_line import LineSched
+    from harness.sched_sql import PrefixChooser, SqlSched
+
+    defer = DeferredThreads().install()
+    sched = (LineSched(line_targets=[MemOrchestrator._atomic_status_transition, MemOrchestrator._interanl_atomic_status_transition],
+                       lock_modules=["pynenc.orchestrator.mem_orchestrator"]) if kind == "mem" else SqlSched(patch=SQL_PATCH, max_steps=20000))
+    sched.install()
+    n = 0
+    try:
+        app = make_app(kind, ctx.tmp, app_id=f"c10adj{kind}")
+        t = app.task(T.prog_body)
+        pairs = [("retry-then-claim", (S.RUNNING, "rA"), (S.RETRY, "rA"), (S.PENDING, "rB")),
+                 ("claim-then-recovery", (S.REGISTERED, None), (S.PENDING, "rA"), (S.PENDING_RECOVERY, "rR")),
+                 ("start-then-kill", (S.PENDING, "rA"), (S.RUNNING, "rA"), (S.KILLED, "rA"))]
+        for name, start, first, second in pairs:
+            def run_one(chooser, start=start, first=first, second=second):
+                defer.pending.clear()
+                app.purge()
+                inv = t("ok").invocation_id
+                flush(app)
+                defer.flush()
+                inject_status(app, inv, start[0], start[1], 0)
+                rec = Recorder(app)
+                rec.log.append((inv, start[0].value, start[1], -1))      # (injected starting point, not judged as a change)
+
+                def a() -> None:
+                    app.orchestrator.set_invocation_status(inv, first[0], rctx(first[1]))
+
+                def b() -> None:
+                    for _ in range(3):          # refused until the first change is in: try again
+                        try:
+                            app.orchestrator.set_invocation_status(inv, second[0], rctx(second[1]))
+                            return
+                        except Exception:  # noqa: BLE001
+                            pass
+
+                run = sched.run([a, b], chooser)
+                ctx.rng.shuffle(defer.pending)
+                defer.flush()
+                flush(app)
+                run.meta = (inv, rec)  # type: ignore[attr-defined]
+                del app.orchestrator._atomic_status_transition
+                del app.orchestrator._register_new_invocations
+                return run
+
+            steps = len(run_one(PrefixChooser([0] * 5000)).choices)
+            for k in range(steps + 1):
+                run = run_one(PrefixChooser([0] * k + [1] * 5000))
+                inv, rec = run.meta  # type: ignore[attr-defined]
+                n += 1
+                ctx.count()
+                ctx.distinct((kind, "adjacent", name, k))
+                rep = {"backend": kind, "scenario": f"adjacent:{name}", "second_request_after_step": k, "schedule": run.choices}
+                for i, want, got_st, r in rec.wrong:
+                    ctx.report(f"transition-returns-foreign-record[{kind}]", f"[{kind}] {name}: the accepted change to {want} requested by {r} was answered with a record in status {got_st}: "
+                                                                              f"its history entry describes another runner's change (second request issued after step {k} of the first)", rep)
+                changes = [(st, r) for (i, st, r, ts) in rec.log if ts >= 0]
+                hist = sorted(app.state_backend.get_history(inv), key=lambda h: h.status_record.timestamp)
+                got = [(h.status_record.status.value, h.runner_context_id) for h in hist if h.status_record.status.value != "registered" or start[0] != S.REGISTERED]
+                got = [g for g in got if g[0] != "registered"]
+                if Counter(got) != Counter(changes):
+                    ctx.report(f"history-mismatch[{kind}]:adjacent:{name}", f"[{kind}] {name}: accepted changes {changes} but the history holds {got} (second request issued after step {k} of the first)", rep)
+        # three actors on one invocation: the owner's RETRY and two competing claims, random schedules; the whole history must be
+        # the accepted changes and a documented path (exactly one of the claims is accepted)
+        from harness.sched_sql import RandomChooser
+        for _ in range(25 if ctx.quick else 250):
+            defer.pending.clear()
+            app.purge()
+            rec = Recorder(app)
+            inv = t("ok").invocation_id
+            app.orchestrator.set_invocation_status(inv, S.PENDING, rctx("rA"))
+            app.orchestrator.set_invocation_status(inv, S.RUNNING, rctx("rA"))
+
+            def owner() -> None:
+                app.orchestrator.set_invocation_status(inv, S.RETRY, rctx("rA"))
+
+            def claimer(r: str):
+                def f() -> None:
+                    for _ in range(3):
+                        try:
+                            app.orchestrator.set_invocation_status(inv, S.PENDING, rctx(r))
+                            return
+                        except Exception:  # noqa: BLE001
+                            pass
+                return f
+
+            run = sched.run([owner, claimer("rB"), claimer("rC")], RandomChooser(ctx.rng, 0.6))
+            ctx.rng.shuffle(defer.pending)
+            defer.flush()
+            flush(app)
+            n += 1
+            judge(ctx, kind, app, rec, doc_edges, "adjacent:retry-vs-two-claims", {"schedule": run.choices})
+            del app.orchestrator._atomic_status_transition
+            del app.orchestrator._register_new_invocations
+    finally:
+        sched.uninstall()
+        defer.uninstall()
+    ctx.notes[f"adjacent_transition_schedules_{kind}"] = n
+
+
 def run(ctx: Ctx) -> None:
     def gen() -> dict[str, str]:
         g = trs.gen()
@@ -289,6 +403,7 @@ def run(ctx: Ctx) -> None:
         sequential(ctx, kind, doc_edges)
         batches(ctx, kind, doc_edges)
         overlapping_writers(ctx, kind, doc_edges)
+        adjacent_transitions(ctx, kind, doc_edges)
         concurrent(ctx, kind, doc_edges)
     ctx.obligation("flushed history == logged transitions (multiset, own invocation, documented path by time of change) on Mem and SQLite",
                    not any(v["signature"].startswith("history-") for v in ctx.violations), "see violations")
